@@ -252,6 +252,13 @@ func runC11(c *eng.Ctx) {
 	ruleNewestSegmentUntouched(c)
 	c.Rule("R11.9", "K1")
 	ruleCursorsAreNotSubjectToRetention(c)
+	// (shared) the zero retention limits of the cursors stream reach the partition: a present override is applied
+	c.Rule("R16.8", "K6")
+	ruleStreamConfigPlumbing(c, "RetentionMaxAge", "RetentionMaxBytes", "RetentionMaxMessages")
+	// (shared with C04) a leader starts its term with every in-sync entry reset, its own included: the refresh that follows
+	// is what re-derives the watermark after an unclean restart
+	c.Rule("R04.5", "K3")
+	ruleLeaderForgetsOldProgress(c)
 
 }
 
